@@ -395,7 +395,8 @@ Qed.
 
 Lemma unknown_never_success st k h b t :
   o_res (do_create st k h b CUnknown t) <> ROk /\ o_res (do_update st k h b CUnknown t) <> ROk /\
-  o_res (do_create st k h b CErr t) <> ROk /\ o_res (do_update st k h b CErr t) <> ROk.
+  o_res (do_create st k h b CErr t) <> ROk /\ o_res (do_update st k h b CErr t) <> ROk /\
+  o_res (do_create st k h b CRefused t) <> ROk /\ o_res (do_update st k h b CRefused t) <> ROk.
 Proof.
   unfold do_create, do_update. repeat split; destruct st; simpl; try discriminate;
     destruct (tso k =? 0); try discriminate; destruct (beqb (rbytes l) (lastVal k)); discriminate.
